@@ -152,7 +152,7 @@ static Node *funcall(Token **rest, Token *tok, Node *node);
 static Node *unary(Token **rest, Token *tok);
 static Node *primary(Token **rest, Token *tok);
 static Token *parse_typedef(Token *tok, Type *basety);
-static bool is_function(Token *tok);
+static bool is_function(Token *tok, Type *basety);
 static Token *function(Token *tok, Type *basety, VarAttr *attr);
 static Token *global_variable(Token *tok, Type *basety, VarAttr *attr);
 
@@ -1895,7 +1895,7 @@ static Node *compound_stmt(Token **rest, Token *tok) {
         continue;
       }
 
-      if (is_function(tok)) {
+      if (is_function(tok, basety)) {
         tok = function(tok, basety, &attr);
         continue;
       }
@@ -3689,13 +3689,17 @@ static Token *global_variable(Token *tok, Type *basety, VarAttr *attr) {
 
 // Lookahead tokens and returns true if a given token is a start
 // of a function definition or declaration.
-static bool is_function(Token *tok) {
+static bool is_function(Token *tok, Type *basety) {
   if (equal(tok, ";"))
     return false;
 
   Type dummy = {};
   Type *ty = declarator(&tok, tok, &dummy);
-  return ty->kind == TY_FUNC;
+  if (ty->kind == TY_FUNC)
+    return true;
+
+  // `F f;` declares a function if F is a typedef of a function type.
+  return ty == &dummy && basety->kind == TY_FUNC;
 }
 
 // Remove redundant tentative definitions.
@@ -3770,7 +3774,7 @@ Obj *parse(Token *tok) {
     }
 
     // Function
-    if (is_function(tok)) {
+    if (is_function(tok, basety)) {
       tok = function(tok, basety, &attr);
       continue;
     }
